@@ -369,6 +369,10 @@ class ScalarExpression(object):
     def __eq__(self, other):
         return ElementwiseConstraint(self, other, "==")
 
+    def scalar_atoms(self):
+        self.remove_zeros()
+        return list(self.atoms_to_coeffs)
+
     def scalar_variables(self):
         self.remove_zeros()
         svs = []
